@@ -94,6 +94,7 @@ pub fn helper_by_name(n: &str) -> Option<rbpf::ebpf::Helper> {
         "gather_bytes" => rbpf::helpers::gather_bytes,
         "memfrob" => rbpf::helpers::memfrob,
         "strcmp" => rbpf::helpers::strcmp,
+        #[cfg(feature = "std")]
         "sqrti" => rbpf::helpers::sqrti,
         #[cfg(feature = "std")]
         "rand" => rbpf::helpers::rand,
@@ -234,6 +235,27 @@ fn classify(msg: &str) -> &'static str {
     }
 }
 
+/// page-aligned writable+executable memory for the no_std JIT (which does not allocate its own)
+#[cfg(not(feature = "std"))]
+pub fn exec_mem() -> &'static mut [u8] {
+    unsafe {
+        let sz = 4 * 1024 * 1024;
+        let p = libc::mmap(std::ptr::null_mut(), sz, libc::PROT_READ | libc::PROT_WRITE | libc::PROT_EXEC,
+                           libc::MAP_PRIVATE | libc::MAP_ANONYMOUS, -1, 0);
+        std::slice::from_raw_parts_mut(p as *mut u8, sz)
+    }
+}
+
+macro_rules! jitc {
+    ($vm:expr) => {{
+        #[cfg(not(feature = "std"))]
+        {
+            let _ = $vm.set_jit_exec_memory(exec_mem());
+        }
+        $vm.jit_compile()
+    }};
+}
+
 pub struct RunReq {
     engine: String,
     kind: String,
@@ -332,7 +354,7 @@ fn exec_run(r: &RunReq) -> String {
         ($res:expr) => {
             match $res {
                 Ok(v) => format!("OK:{:x}", v),
-                Err(e) => format!("ERR:{}", classify(&e.to_string())),
+                Err(e) => format!("ERR:{}", classify(&format!("{:?}", e))),
             }
         };
     }
@@ -352,7 +374,7 @@ fn exec_run(r: &RunReq) -> String {
                 }
                 status = match engine {
                     "interp" => fin!(vm.execute_program(mem, mbuff)),
-                    "jit" => match vm.jit_compile() {
+                    "jit" => match jitc!(vm) {
                         Err(_) => "ERR:compile".to_string(),
                         Ok(()) => unsafe {
                             let mb: &'static mut [u8] = std::slice::from_raw_parts_mut(mbuff_p, r.mbuff.len());
@@ -382,7 +404,7 @@ fn exec_run(r: &RunReq) -> String {
                 let m2: &'static mut [u8] = unsafe { std::slice::from_raw_parts_mut(mem_p, r.mem.len()) };
                 status = match engine {
                     "interp" => fin!(vm.execute_program(m2)),
-                    "jit" => match vm.jit_compile() {
+                    "jit" => match jitc!(vm) {
                         Err(_) => "ERR:compile".to_string(),
                         Ok(()) => unsafe { fin!(vm.execute_program_jit(m2)) },
                     },
@@ -406,7 +428,7 @@ fn exec_run(r: &RunReq) -> String {
                 let m2: &'static mut [u8] = unsafe { std::slice::from_raw_parts_mut(mem_p, r.mem.len()) };
                 status = match engine {
                     "interp" => fin!(vm.execute_program(m2)),
-                    "jit" => match vm.jit_compile() {
+                    "jit" => match jitc!(vm) {
                         Err(_) => "ERR:compile".to_string(),
                         Ok(()) => unsafe { fin!(vm.execute_program_jit(m2)) },
                     },
@@ -429,7 +451,7 @@ fn exec_run(r: &RunReq) -> String {
                 }
                 status = match engine {
                     "interp" => fin!(vm.execute_program()),
-                    "jit" => match vm.jit_compile() {
+                    "jit" => match jitc!(vm) {
                         Err(_) => "ERR:compile".to_string(),
                         Ok(()) => unsafe { fin!(vm.execute_program_jit()) },
                     },
@@ -551,6 +573,33 @@ pub fn cmd_helper(p: &[&str]) -> String {
     let (l1, l2) = (b1.len(), b2.len());
     forked(5, move || {
         catch(move || {
+            #[cfg(feature = "std")]
+            if name == "bpf_trace_printf" {
+                // capture what the helper prints on stdout and count the bytes
+                use std::io::Write;
+                unsafe {
+                    let mut fds = [0i32; 2];
+                    libc::pipe(fds.as_mut_ptr());
+                    std::io::stdout().flush().ok();
+                    let saved = libc::dup(1);
+                    libc::dup2(fds[1], 1);
+                    libc::close(fds[1]);
+                    let r = rbpf::helpers::bpf_trace_printf(a[0], a[1], a[2], a[3], a[4]);
+                    std::io::stdout().flush().ok();
+                    libc::dup2(saved, 1);
+                    libc::close(saved);
+                    let mut buf = [0u8; 4096];
+                    let mut n = 0usize;
+                    loop {
+                        let k = libc::read(fds[0], buf.as_mut_ptr() as *mut libc::c_void, buf.len());
+                        if k <= 0 {
+                            break;
+                        }
+                        n += k as usize;
+                    }
+                    return format!("RET {:x} printed={}", r, n);
+                }
+            }
             let f = match helper_by_name(&name) {
                 Some(f) => f,
                 None => return "NOHELPER".to_string(),
@@ -568,18 +617,18 @@ pub fn cmd_helper(p: &[&str]) -> String {
 
 // ------------------------------------------------------------------ API histories (C10)
 
-fn vf_accept_all(_p: &[u8]) -> Result<(), std::io::Error> {
+fn vf_accept_all(_p: &[u8]) -> Result<(), rbpf::lib::Error> {
     Ok(())
 }
-fn vf_reject_all(_p: &[u8]) -> Result<(), std::io::Error> {
-    Err(std::io::Error::other("[Verifier] reject-all"))
+fn vf_reject_all(_p: &[u8]) -> Result<(), rbpf::lib::Error> {
+    Err(rbpf::lib::Error::other("[Verifier] reject-all"))
 }
 /// custom verifier: accepts exactly the programs whose last slot is `exit` and that contain no call
-fn vf_ends_exit(p: &[u8]) -> Result<(), std::io::Error> {
+fn vf_ends_exit(p: &[u8]) -> Result<(), rbpf::lib::Error> {
     if p.len() >= 8 && p.len() % 8 == 0 && p[p.len() - 8] == 0x95 && !p.chunks(8).any(|c| c[0] == 0x85) {
         Ok(())
     } else {
-        Err(std::io::Error::other("[Verifier] custom: no exit / has call"))
+        Err(rbpf::lib::Error::other("[Verifier] custom: no exit / has call"))
     }
 }
 
@@ -600,7 +649,7 @@ fn api_run(kind: &str, ops: &[String]) -> String {
         ($e:expr) => {
             match $e {
                 Ok(_) => "ok".to_string(),
-                Err(e) => format!("err:{}", classify(&e.to_string())),
+                Err(e) => format!("err:{}", classify(&format!("{:?}", e))),
             }
         };
     }
@@ -608,7 +657,7 @@ fn api_run(kind: &str, ops: &[String]) -> String {
         ($e:expr) => {
             match $e {
                 Ok(v) => format!("ok:{:x}", v),
-                Err(e) => format!("err:{}", classify(&e.to_string())),
+                Err(e) => format!("err:{}", classify(&format!("{:?}", e))),
             }
         };
     }
@@ -636,7 +685,7 @@ fn api_run(kind: &str, ops: &[String]) -> String {
                     let spec = CalcSpec { default: parse_i($a[0]) as u16, table: HashMap::new() };
                     Some(r!($vm.set_stack_usage_calculator(calc_fn, Box::new(spec))))
                 }
-                "jit" => Some(r!($vm.jit_compile())),
+                "jit" => Some(r!(jitc!($vm))),
                 #[cfg(feature = "cranelift")]
                 "cl" => Some(r!($vm.cranelift_compile())),
                 _ => None,
@@ -842,7 +891,7 @@ pub fn cmd_xadd(m: &HashMap<String, String>) -> String {
                 vm.register_allowed_memory((base as u64)..(base as u64 + 24));
                 match eng.as_str() {
                     "jit" => {
-                        vm.jit_compile().unwrap();
+                        jitc!(vm).unwrap();
                         unsafe { vm.execute_program_jit().is_ok() }
                     }
                     #[cfg(feature = "cranelift")]
